@@ -627,6 +627,31 @@ func Analyse(g *Graph, fns map[*ssa.Function]*ssa.Function, seeds map[ssa.Value]
 						if com.IsInvoke() {
 							args = append([]ssa.Value{com.Value}, com.Args...)
 						}
+						// what a synchronised container outside the repository hands back is what was put into it: an object taken
+						// from a shared sync.Map / atomic.Value / atomic.Pointer / container/list is shared between the requests that
+						// look it up (the container's own synchronisation covers the lookup, not the use of the object)
+						if c := com.StaticCallee(); c != nil && !com.IsInvoke() && len(com.Args) > 0 && sharedContainerGetter(c) {
+							if w, ok := s.ref[com.Args[0]]; ok {
+								if v, isV := in.(ssa.Value); isV {
+									mark(v, w+" (object kept in a shared "+containerName(c)+")")
+								}
+								// Range(func(k, v any) bool): the callback's parameters
+								for _, a := range com.Args[1:] {
+									var cf *ssa.Function
+									switch f := a.(type) {
+									case *ssa.MakeClosure:
+										cf, _ = f.Fn.(*ssa.Function)
+									case *ssa.Function:
+										cf = f
+									}
+									if cf != nil && s.fns[cf] {
+										for _, prm := range cf.Params {
+											mark(prm, w+" (object kept in a shared "+containerName(c)+")")
+										}
+									}
+								}
+							}
+						}
 						for _, c := range callees {
 							if !s.fns[c] || c.Blocks == nil {
 								continue
@@ -671,6 +696,42 @@ func Analyse(g *Graph, fns map[*ssa.Function]*ssa.Function, seeds map[ssa.Value]
 		}
 	}
 	return s
+}
+
+// sharedContainerGetter: methods of synchronised containers that return (or iterate over) the objects stored in them.
+func sharedContainerGetter(c *ssa.Function) bool {
+	if c.Signature.Recv() == nil || c.Pkg == nil {
+		return false
+	}
+	switch c.Pkg.Pkg.Path() {
+	case "sync":
+		if n := named(c.Signature.Recv().Type()); n != nil && n.Obj().Name() == "Map" {
+			switch c.Name() {
+			case "Load", "LoadOrStore", "LoadAndDelete", "Swap", "Range":
+				return true
+			}
+		}
+	case "sync/atomic":
+		if n := named(c.Signature.Recv().Type()); n != nil && (n.Obj().Name() == "Value" || n.Obj().Name() == "Pointer") {
+			switch c.Name() {
+			case "Load", "Swap":
+				return true
+			}
+		}
+	case "container/list":
+		switch c.Name() {
+		case "Front", "Back", "Next", "Prev":
+			return true
+		}
+	}
+	return false
+}
+
+func containerName(c *ssa.Function) string {
+	if n := named(c.Signature.Recv().Type()); n != nil {
+		return n.Obj().Pkg().Name() + "." + n.Obj().Name()
+	}
+	return "container"
 }
 
 // Ref reports whether v may reference shared memory, and why.
